@@ -10,6 +10,9 @@ tgt=$here/target-bg
 export VERIF_FAST_BIN=$tgt/fast/cfbsim
 bin=$tgt/release/cfbsim
 export VERIF_NO_EVIDENCE=1
+# read this snapshot's KNOWN_FINDINGS / witnesses, write replays and scratch files inside it
+export VERIF_HOME=$here
+mkdir -p $here/target/tmp $here/replays
 run_check() { # <check> <tier> <seed>
   if [ "$1" = "C14" ]; then
     ( cd "$here/sched" && CFB_SRC=$repo/src ./sync-manifest.sh >/dev/null 2>&1 && CFB_SRC=$repo/src cargo build --release --offline >/dev/null 2>&1; $tgt/sched/release/cfbsched run --tier $2 --seed $3 --out-root $here/bg-out 2>&1 )
